@@ -493,10 +493,12 @@ def _check_jax(ctx, rid, repo, rel, r, g):
         return
     name, args = r.jit_calls[0]
     params = A.params_of(fo.node)
+    from ..shims import objective_roles
+    roles = objective_roles(repo, rel) or {p_: p_ for p_ in params}
     want = {"pars": "PARS", "data": "data", "fixed_values": "FIXED_VALUES", "fixed_idx": (1,), "variable_idx": (0, 2), "do_stitch": True, "objective": "objective", "pdf": "pdf"}
     bad = []
     for p, a in zip(params, args):
-        wv = want.get(p)
+        wv = want.get(roles.get(p))
         if isinstance(wv, tuple):
             okk = isinstance(a, (tuple, list)) and tuple(int(to_poly(x).const_value()) for x in a) == wv
         elif wv is True:
@@ -517,8 +519,10 @@ def _check_jax(ctx, rid, repo, rel, r, g):
         try:
             ev = []
             ext = {"_TensorViewer": lambda a, k: (ev.append(("tv", a)) or Obj("TV")), ".stitch": lambda recv, a, k: (ev.append(("stitch", a)) or Poly.atom("STITCHED")), "debug": lambda a, k: None}
-            env = {"pars": Poly.atom("PARS"), "data": Obj("data"), "fixed_values": Obj("FIXED_VALUES"), "fixed_idx": Obj("FIDX"), "variable_idx": Obj("VIDX"), "do_stitch": do_stitch,
-                   "objective": PyFunc(lambda a, k: Poly.atom("OBJ<" + ";".join(str(to_poly(x)) if not isinstance(x, Obj) else x.name for x in a) + ">"), "objective"), "pdf": Obj("pdf"), "log": Obj("log")}
+            by_role = {"pars": Poly.atom("PARS"), "data": Obj("data"), "fixed_values": Obj("FIXED_VALUES"), "fixed_idx": Obj("FIDX"), "variable_idx": Obj("VIDX"), "do_stitch": do_stitch,
+                       "objective": PyFunc(lambda a, k: Poly.atom("OBJ<" + ";".join(str(to_poly(x)) if not isinstance(x, Obj) else x.name for x in a) + ">"), "objective"), "pdf": Obj("pdf")}
+            env = {p_: by_role[r_] for p_, r_ in roles.items() if r_ in by_role}
+            env["log"] = Obj("log")
             v = Interp(env, {}, {}, externals=ext).run(A.strip_docstring(fo.node.body))
             wantv = "OBJ<STITCHED;data;pdf>" if do_stitch else "OBJ<PARS;data;pdf>"
             okv = str(to_poly(v)) == wantv
@@ -910,11 +914,27 @@ def jax_objective_point(ctx, rid, repo, table, mk, shim):
                 w.call_func(shim, [Obj("objective"), Obj("data"), pdf_, [Poly.atom(f"i{j}") for j in range(npar)], [Poly.atom(f"b{j}") for j in range(npar)]],
                             {"fixed_vals": [(Poly.const(j), Poly.atom(f"v{j}")) for j in fixed_list], "do_grad": True, "do_stitch": True})
                 from ..alg import as_record
-                jp = as_record(cap.get("jit_pieces") or {})
+                jp = cap.get("jit_pieces")
                 objective = PyFunc(lambda a, k: (seen_obj.append(a[0]) or [Poly.atom("NLL")]), "objective")
                 from ..listnp import T as _T
-                # by parameter NAME: the order of the eight parameters is the definition's business (and its call sites')
-                w.call_func(fo, [], {"pars": _T([Poly.atom(f"q{j}") for j in free_at]), "data": Obj("data"), "fixed_values": jp.get("fixed_values"), "fixed_idx": tuple(jp.get("fixed_idx", ())), "variable_idx": tuple(jp.get("variable_idx", ())), "do_stitch": jp.get("do_stitch"), "objective": objective, "pdf": pdf_})
+                # shim -> (the jax shim's own call site) -> the jitted function: whatever order and names the private
+                # objective's parameters have, the call site and the definition are composed as they are written
+                wj = repo.func(jrel, "wrap_objective")
+
+                def jitted(a, k):
+                    return w.call_func(fo, list(a), dict(k))
+
+                w.base["_jitted_objective"] = jitted
+                w.base["_jitted_objective_and_grad"] = lambda a, k: (jitted(a, k), Poly.atom("GRAD"))
+                w.add_func(wj)
+                func_ = w.call_func(wj, [objective, Obj("data"), pdf_, Obj("STITCH_UNUSED"), False, jp])
+                w.ext = None
+                if isinstance(func_, Closure):
+                    func_.interp.call_function(func_.node, [_T([Poly.atom(f"q{j}") for j in free_at])], {})
+                elif isinstance(func_, PyFunc):
+                    func_.f([_T([Poly.atom(f"q{j}") for j in free_at])], {})
+                else:
+                    raise Undecided("the jax shim does not return a function")
                 got = [str(to_poly(x)) for x in seen_obj[0]]
                 want = [f"v{j}" if j in fixed_list else f"q{j}" for j in range(npar)]
                 if got == want:
